@@ -139,8 +139,9 @@ func (c *Conn) loop(ctx context.Context) {
 				if err != nil {
 					log.Println(err)
 				}
-				ok := n >= 0
-				if n < 0 {
+				// no handler produced an answer if the hub refused the request
+				ok := err == nil && n >= 0
+				if !ok {
 					n = 0
 				}
 				if err := req.Reply(ok, resp[:n]); err != nil {
